@@ -510,7 +510,11 @@ fn srv_oracle(case: &SrvCase, obs: &mut Obs) -> Result<(), Fail> {
 	if case.swap_xy {
 		sargs.push("--swap-xy".into());
 	}
-	sargs.push(vt::server::source_arg(&src, "src"));
+	// the same container under one to three ids: the flags apply to every tile source of the server
+	let ids = &["src", "second", "third"][..1 + set.tiles.len() % 3];
+	for id in ids {
+		sargs.push(vt::server::source_arg(&src, id));
+	}
 	let mut server = Server::start(&sargs);
 	let mut probes: BTreeSet<Coord> = BTreeSet::new();
 	for c in set.probes(1, 60) {
@@ -520,8 +524,8 @@ fn srv_oracle(case: &SrvCase, obs: &mut Obs) -> Result<(), Fail> {
 		}
 	}
 	let mut requests = 0u64;
-	for c in &probes {
-		let target = format!("/tiles/src/{}/{}/{}", c.z, c.x, c.y);
+	for (k, c) in probes.iter().enumerate() {
+		let target = format!("/tiles/{}/{}/{}/{}", ids[k % ids.len()], c.z, c.x, c.y);
 		requests += 1;
 		match server.get(&target, &[("Accept-Encoding", "gzip, br")]) {
 			Exchange::Dropped(e) => fail!("serve:connection-dropped", "GET {target} with flip={} swap={}: {e}", case.flip_y, case.swap_xy),
@@ -546,6 +550,7 @@ fn srv_oracle(case: &SrvCase, obs: &mut Obs) -> Result<(), Fail> {
 	obs.count("requests", requests);
 	obs.label(format!("flip={},swap={}", case.flip_y, case.swap_xy));
 	obs.label(format!("source:{}", case.source.name()));
+	obs.label(format!("tile-sources-on-the-server={}", ids.len()));
 	obs.nontrivial(case.flip_y && case.swap_xy && conv.tiles.len() >= 2);
 	Ok(())
 }
